@@ -110,6 +110,18 @@ mod c12 {
         let mut sf = Script::<f32, KMAX>::new(evf);
         let rf = ptr_ref(&mut sf);
         let mut mf: MovingAverageStream<f32, _, E> = MovingAverageStream::new(rf.clone(), Time(w));
+        // the Quantity implementation (a separate impl block in rrtk) on the same schedule and numbers, arbitrary unit
+        let (um, us) = sym_unit60();
+        let mut evq = [Ev::None; KMAX];
+        let mut i = 0;
+        while i < k {
+            evq[i] = match evf[i] { Ev::Some(t, x) => Ev::Some(t, Quantity::new(x, Unit::new(um, us))), Ev::None => Ev::None, Ev::Err(e) => Ev::Err(e) };
+            i += 1;
+        }
+        let mut sq = Script::<Quantity, KMAX>::new(evq);
+        let rq = ptr_ref(&mut sq);
+        let mut mq: MovingAverageStream<Quantity, _, E> = MovingAverageStream::new(rq.clone(), Time(w));
+        let mut valq: Option<f32> = None;
         // spec state: samples currently inside the window, oldest first
         let mut q: [(i64, f32); KMAX] = [(0, 0.0); KMAX];
         let mut n = 0usize;
@@ -118,6 +130,8 @@ mod c12 {
         while i < k {
             rf.borrow_mut().idx = i;
             let res = mf.update();          // must not panic
+            rq.borrow_mut().idx = i;
+            let resq = mq.update();         // must not panic
             match evf[i] {
                 Ev::Err(e) => { val = Err(e); n = 0; }
                 Ev::None => { if val.is_err() { val = Ok(None); } }
@@ -130,6 +144,7 @@ mod c12 {
                     while j + drop_n < n { q[j] = q[j + drop_n]; j += 1; }
                     n -= drop_n;
                     let mut acc = 0.0f32;
+                    let mut accq = 0.0f32;
                     let mut total: i64 = 0;
                     let mut j = 0;
                     while j < n {
@@ -137,19 +152,28 @@ mod c12 {
                         vk_assert!(q[j].0 - from >= 0, "C12.mavg.weights_non_negative");
                         total += q[j].0 - from;
                         acc += q[j].1 * secs(q[j].0 - from);
+                        if j == 0 { accq = q[j].1 * secs(q[j].0 - from); } else { accq += q[j].1 * secs(q[j].0 - from); }
                         j += 1;
                     }
                     vk_assert!(total == w, "C12.mavg.weights_sum_to_window");
                     val = Ok(Some((t, acc / secs(w))));
+                    valq = Some(accq / secs(w));
                 }
             }
             vk_assert!(upd_ok(res, err_of(evf[i])), "C12.mavg.update_result");
             let want: Output<f32, E> = match val { Err(e) => Err(Error::Other(e)), Ok(None) => Ok(None), Ok(Some((t, v))) => Ok(Some(Datum::new(Time(t), v))) };
             vk_assert!(out_same_f32(&mf.get(), &want), "C12.mavg.time_weighted_average");
+            vk_assert!(upd_ok(resq, err_of(evf[i])), "C12.mavg.quantity_update_result");
+            let wantq: Output<Quantity, E> = match (val, valq) {
+                (Err(e), _) => Err(Error::Other(e)),
+                (Ok(Some((t, _))), Some(v)) => Ok(Some(Datum::new(Time(t), Quantity::new(v, Unit::new(um, us))))),
+                _ => Ok(None),
+            };
+            vk_assert!(out_same_q(&mq.get(), &wantq), "C12.mavg.quantity_time_weighted_average_and_unit");
             i += 1;
         }
         vk_end!();
-        core::mem::forget(mf);
+        core::mem::forget(mf); core::mem::forget(mq);
     }
 }
 '''
@@ -205,12 +229,12 @@ def spec(ctx):
         Harness("c12_ewma_first_sample", "e1", timeout=300, clause="first sample returned unchanged (finite sample; CBMC's powf model: x^0 == 1)"),
         Harness("c12_mavg_first", "e2", unwind=4, skeletons=[(0,), (1,), (2,)], clause="moving average, first update, symbolic positive window and sample: no panic, value, time"),
         Harness("c12_mavg_schedule", "e2", unwind=12, skeletons=sch, timeout=300,
-                clause="moving average on %d concrete timing schedules, symbolic sample values: exact time-weighted average, weights >= 0 summing to the window, no panic" % len(sch)),
+                clause="moving average on %d concrete timing schedules, symbolic sample values, f32 and Quantity (arbitrary unit) implementations: exact time-weighted average, unit preserved, weights >= 0 summing to the window, no panic" % len(sch)),
     ]
     return {
         "crates": [{"rust": RUST, "harnesses": hs, "stubbing": True}],
         "exhaustive": False,
-        "functions": ["EWMAStream<f32>::{update,get}", "EWMAStream<Quantity>::{update,get}", "MovingAverageStream<f32>::{update,get}", "MovingAverageStream<Quantity>::{update,get} (first update)"],
+        "functions": ["EWMAStream<f32>::{update,get}", "EWMAStream<Quantity>::{update,get}", "MovingAverageStream<f32>::{update,get}", "MovingAverageStream<Quantity>::{update,get}"],
         "bounds": {"EWMA history length": K, "moving-average timing": "first update fully symbolic; longer histories ONLY on the %d concrete schedules listed in skeleton_space (seeded)" % len(sch),
                    "values": "all f32 samples and smoothing constants; |t| < 2^60"},
         "skeleton_space": {"ewma histories": len(hsk), "moving-average schedules [k, window_ns, (kind, t_ns)*]": [list(s) for s in sch]},
@@ -218,5 +242,5 @@ def spec(ctx):
                         "f32 and Quantity moving averages differ only by a leading `0.0 +`, which preserves every f32 value (IEEE)"],
         "not_decided": ["convexity / 'constant in => constant out' (rounding clauses)", "the moving average with two or more samples inside the window (weights, telescoping sum, no-panic): CBMC's symex of the heap-backed VecDeque/Vec "
                         "needs > 100 s and produces a 760 MB quantified formula for 3 samples (measured) - only single-sample windows are decided",
-                        "Quantity moving average beyond the first update", "accuracy of powf"],
+                        "accuracy of powf"],
     }
